@@ -11,7 +11,7 @@ RULE = ('random programs (mostly valid calls + a malformed stream) with nested c
         'to a module of another thread\'s context, possibly carrying the name of a local module (`xtell …`); the same scripts are then run '
         'concurrently, 3 contexts on 3 threads of one process, and each thread\'s trace must equal its solo trace; a ThreadSanitizer '
         'build repeats the concurrent runs; non-trivial = a cross-thread call was made and a callback ran')
-ALPHA = ['ctx', 'reg', 'reg', 'life', 'life', 'loop', 'loop', 'ps', 'ps', 'sub', 'fd', 'fd', 'foreign', 'foreign', 'foreign', 'become', 'batch', 'stash']
+ALPHA = ['ctx', 'reg', 'reg', 'life', 'life', 'loop', 'loop', 'ps', 'ps', 'sub', 'fd', 'fd', 'foreign', 'foreign', 'foreign', 'become', 'batch', 'stash', 'task']
 N_QUICK, N_THOROUGH, MAXLEN = 240, 4000, 45
 GROUP = 3
 
